@@ -36,7 +36,7 @@ RULE = ("Twin runs. Stream S and S' = S with the VALUES (prices, payloads, table
         "event before the end of the episode.")
 ASSUMPTIONS = ["value perturbations only: adding/removing future timestamps legitimately changes `done`"]
 REQUIRED = ["C02:no-lookahead", "C02:next-trades-independent-of-future", "C02:xy-no-lookahead"]
-REQUIRED_CATS = ["xy-twin-in-fresh-interpreter", "xy-rate-off-price-dates", "transmitter-used-before-with-larger-latency", "xy-prefitted-transformer", "custom-events-from-table", "xy-sparse-features", "generic", "xy", "xy-nan-straddles-cut", "xy-row-missing-at-cut", "cut:first", "cut:last", "latency>0", "late-fold", "markov", "warmup"]
+REQUIRED_CATS = ["xy-features-stamped-intraday", "xy-twin-in-fresh-interpreter", "xy-rate-off-price-dates", "transmitter-used-before-with-larger-latency", "xy-prefitted-transformer", "custom-events-from-table", "xy-sparse-features", "generic", "xy", "xy-nan-straddles-cut", "xy-row-missing-at-cut", "cut:first", "cut:last", "latency>0", "late-fold", "markov", "warmup"]
 TECHNIQUE = "runtime monitoring: twin executions on streams that agree up to the cut, compared call by call on canonical digests"
 LEVEL_TEXT = ("Exploration by twin runs: the same real environment is executed on two inputs that agree on everything stamped <= t; any "
               "difference in an output landing at or before t is a witness of look-ahead. Fixed actions prevent a leak from hiding "
@@ -261,6 +261,11 @@ def xy(ctx):
         X = X.iloc[keep]
         kcut = min(kfit + r.randint(0, 1), n - 3)
         ctx.cat("xy-sparse-features")
+    if not sparse and r.random() < 0.3:
+        # the feature rows are stamped later in the day than the price rows of the same date (features published
+        # at 18:00, prices at midnight): the row of date D is dated AFTER the timestep D
+        X.index = X.index + pd.Timedelta(hours=r.choice([18, 9, 23]))
+        ctx.cat("xy-features-stamped-intraday")
     tcut = dates[kcut]
     # missing values straddling the cut: any backward fill / interpolation
     # would pull a perturbed value into an observation dated <= cut
@@ -286,7 +291,7 @@ def xy(ctx):
     def run(X, Y, rate):
         return run_xy(X, Y, rate, tf, prefit, tfit, window, sd, n)
 
-    if ctx.index % 60 == 9:
+    if ctx.index % 100 == 9:
         # another tabular environment built earlier in the same process, with the same transformer shortcut but
         # fitted on other (and later) data, ...
         TradingEnvXY(X * 3 + 1, Y.copy(), transformer=tf, window=window)
@@ -304,7 +309,7 @@ def xy(ctx):
             if xa:
                 X2.iloc[r.choice(xa), r.randrange(3)] = np.nan
             Y2.iloc[r.choice(idx_after), r.randrange(2)] = np.nan
-    if ctx.index % 60 == 9:
+    if ctx.index % 100 == 9:
         # ... and the perturbed twin run ALONE in a fresh interpreter: what the busy process serves up to the cut
         # must not depend on anything but the data up to the cut - not on what else was built in the process
         pert = alone.call("c02", "run_xy", X2, Y2, rate2, tf, prefit, tfit, window, sd, n)
